@@ -86,6 +86,9 @@ XProgs == {[x |-> "unknown-target", line |-> l, im |-> i] : l \in {"map B Zz", "
             \*       (two-automap) two autoMap lines both count: vals = <<Street (from Home), Title (from Job)>>;
             \*       (path-slice) `map Meta.Tags Tags` through a pointer: the slice arrives, and nil Meta gives nil Tags without a panic
             \cup {[x |-> "misc", sub |-> sb] : sb \in {"nested", "two-automap", "path-slice"}}
+            \* method-ctx: the source of target field Name is the source struct's method Name(Loc) / Name(l Loc): every parameter of a struct
+            \*             method is a context, named or not; avail: the converter method has a context of that type to hand on
+            \cup {[x |-> "method-ctx", named |-> nm, avail |-> av] : nm \in BOOLEAN, av \in BOOLEAN}
             \cup {[x |-> "reuse", setting |-> st, second |-> sc] : st \in {"none", "map", "ignore", "autoMap"}, sc \in {"none", "slice", "value"}}
             \* reuse-ptrval: the same with Conv(ptr S) T, which needs useZeroValueOnPointerInconsistency -- given on that method only
             \cup {[x |-> "reuse-ptrval", setting |-> st, second |-> sc] : st \in {"none", "map", "ignore"}, sc \in {"none", "slice", "value"}}
@@ -93,6 +96,7 @@ XExpect(q) ==
   CASE q.x \in {"unknown-target", "nonstruct"} -> [gen |-> "fail", val |-> 0]
     [] q.x = "misc" -> [gen |-> "ok", val |-> 0, vals |-> CASE q.sub = "nested" -> <<1, 3>> [] q.sub = "two-automap" -> <<4, 5>> [] OTHER -> <<7, 99>>]
     [] q.x \in {"reuse", "reuse-ptrval"} -> [gen |-> IF q.setting # "none" /\ q.second # "none" THEN "fail" ELSE "ok", val |-> 0]
+    [] q.x = "method-ctx" -> IF q.avail THEN [gen |-> "ok", val |-> IF q.named THEN 4 ELSE 2] ELSE [gen |-> "fail", val |-> 0]
     [] q.x = "method" ->
          LET exact == (IF q.field = "Name" THEN {"f"} ELSE {}) \cup (IF q.meth = "Name" THEN {"m"} ELSE {})
              ci == IF q.mic THEN (IF q.field = "NAME" THEN {"f"} ELSE {}) \cup (IF q.meth = "NaMe" THEN {"m"} ELSE {}) ELSE {}
